@@ -37,6 +37,18 @@ class BuildLock:
         self.f.close()
 
 
+def repo_state():
+    """(HEAD revision, digest of the working-tree difference) of REPO — a check whose workers may import the library at different
+    moments is only meaningful if this did not move between its start and its end (DESIGN 8, two-mode run on a moving /repo)"""
+    import hashlib
+    try:
+        h = subprocess.run(["git", "-C", REPO, "rev-parse", "--short", "HEAD"], stdout=subprocess.PIPE, stderr=subprocess.DEVNULL, text=True).stdout.strip()
+        d = subprocess.run(["git", "-C", REPO, "diff", "HEAD", "--", "exetera"], stdout=subprocess.PIPE, stderr=subprocess.DEVNULL).stdout
+        return h, hashlib.sha1(d).hexdigest()[:12]
+    except Exception:
+        return None, None
+
+
 def translate():
     """Regenerate lean/Exetera/Gen/*.lean from the current source of REPO. Returns (ok, message)."""
     p = subprocess.run([PY, str(VERIF / "tools" / "translate.py"), "--repo", REPO],
